@@ -108,3 +108,47 @@ def try_body_contains(try_ast, target_ast):
 
 def subnodes(e, cls):
     return [n for n in ast.walk(e) if isinstance(n, cls)]
+
+
+def return_sources(fi):
+    """The places where a function's results are computed: for `return E` the pair (return node, E); for `return name`
+    where every definition of `name` reaching the return is a plain `name = E'` statement, the pairs (that statement's
+    node, E') instead (the `result = ...; return result` idiom), transitively.  Implicit returns give (node, None)."""
+    g = cfg_of(fi)
+    rd = prov.rd_of(g)
+    out = []
+    seen = set()
+
+    def expand(n, e, depth):
+        if isinstance(e, ast.Name) and depth < 4:
+            ds = rd.get(n.id, {}).get(e.id)
+            if ds and g.entry.id not in ds:
+                srcs = []
+                for d in ds:
+                    dn = g.nodes[d]
+                    a = dn.ast
+                    if dn.kind == "stmt" and isinstance(a, ast.Assign) and len(a.targets) == 1 and \
+                            isinstance(a.targets[0], ast.Name) and a.targets[0].id == e.id:
+                        srcs.append((dn, a.value))
+                    else:
+                        srcs = None
+                        break
+                if srcs:
+                    for (dn, v) in srcs:
+                        expand(dn, v, depth + 1)
+                    return
+        if (n.id, id(e)) not in seen:
+            seen.add((n.id, id(e)))
+            out.append((n, e))
+    for n in g.live_nodes():
+        if n.kind == "return":
+            v = n.ast.value if n.ast is not None else None
+            if v is None:
+                out.append((n, None))
+            else:
+                expand(n, v, 0)
+    return out
+
+
+def is_none_expr(e):
+    return e is None or (isinstance(e, ast.Constant) and e.value is None)
